@@ -77,5 +77,5 @@ def run(tier, seed):
     V.write_evidence('C14', tier, seed, cov, time.time() - t0, len(ver.violations),
                      assumptions=['all components of vector samples are hashed (FNV) and compared', 'threads: 8 scoped threads sharing one &D with private RNGs'])
     if expected - seen or hist == 0:
-        return 2
+        return 1 if rc == 1 else 2  # a violation outranks a missed coverage floor
     return rc
